@@ -70,14 +70,23 @@ theorem inv_syncPodIPs (s : State) (f : Nat) (h : Inv s) : Inv (step Facts.good 
 /-! ### reload / restart -/
 
 theorem inv_of_reconfigured {s s' : State} {ps : List Pool} (h : Inv s) (rc : Reconfigured s s' ps)
-    (hkeep : ∀ q, LiveBound s.pods q → ∀ hd, hd ∈ q.handed → configured ps hd.ip = true) : Inv s' := by
+    (hkeep : ∀ q, LiveBound s.pods q → ∀ hd, hd ∈ q.handed → configured ps hd.ip = true)
+    (hadm : ∀ j, Tbl.get s'.admin j = if configured ps j then Tbl.get s.admin j else none) : Inv s' := by
   refine ⟨rc.coherent, ?_, ?_, ?_, ?_, ?_, ?_, ?_, by rw [rc.pods]; exact h.podsNodup, by rw [rc.vPods]; exact h.vPodsNodup⟩
   · rw [rc.pods]
-    refine ⟨fun q hq hd hm => ?_⟩
-    obtain ⟨r, h1, h2, h3⟩ := h.safe.own q hq hd hm
-    refine ⟨r, ?_, h2, h3⟩
-    rw [rc.alloc, hkeep q hq hd hm]
-    simp only [if_true, listed, Tbl.get_append, h.coh.agree, h1, Option.orElse]
+    refine ⟨fun q hq hd hm => ?_, fun ip r hr => ?_⟩
+    · obtain ⟨r, h1, h2, h3⟩ := h.safe.own q hq hd hm
+      refine ⟨r, ?_, h2, h3⟩
+      rw [rc.alloc, hkeep q hq hd hm]
+      simp only [if_true, listed, Tbl.get_append, h.coh.agree, h1, Option.orElse]
+    · rw [hadm] at hr
+      by_cases hc : configured ps ip = true
+      · rw [if_pos hc] at hr
+        obtain ⟨h1, h2⟩ := h.safe.admin ip r hr
+        refine ⟨?_, h2⟩
+        rw [rc.alloc, if_pos hc]
+        simp only [listed, Tbl.get_append, h.coh.agree, h1, Option.orElse]
+      · rw [if_neg hc] at hr; cases hr
   · rw [rc.pods, rc.nextUid]; exact h.podsWF
   · rw [rc.pods]; exact h.uidUniq
   · rw [rc.pods, rc.vPods, rc.nextUid]; exact h.lister
@@ -104,7 +113,7 @@ theorem reload_spec (s : State) (pools : List Pool) (h : Inv s)
       · rename_i hc
         have hc' : (configurePool s.api.1 pools).2 = true := by simpa using hc
         have rc := configurePool_ok' s.api.1 pools hc'
-        have hi := inv_of_reconfigured h1 rc hkeep
+        have hi := inv_of_reconfigured h1 rc hkeep (configurePool_admin s.api.1 pools hc')
         refine ⟨hi.of_fields rfl rfl rfl rfl rfl rfl rfl rfl, rc.pods, ?_⟩
         show (configurePool s.api.1 pools).1.plog = s.plog
         unfold configurePool
@@ -155,7 +164,7 @@ theorem inv_restart (s : State) (h : Inv s) : Inv (step Facts.good s .restart).1
     exact h1.quiet (api_quiet _)
   | true =>
     have rc := configurePool_ok' _ _ hc
-    apply inv_of_reconfigured h1 rc
+    apply inv_of_reconfigured h1 rc _ (configurePool_admin _ _ hc)
     intro q hq hd hm
     obtain ⟨r, hr, _, _⟩ := h1.safe.own q hq hd hm
     exact h1.coh.allocConf _ r hr
